@@ -75,11 +75,13 @@ class NumberType(Type):
         """
         if unit:
             if self.unit and self.unit!=unit:
+                # arrays are converted element-wise
+                value = self.value if isinstance(self.value, (list, np.ndarray)) else float(self.value)
                 if env is None:
-                    self.value = Quantity(float(self.value), self.unit).value(unit)
+                    self.value = Quantity(value, self.unit).value(unit)
                 else:
                     with UnitEnvironment(env.units):
-                        self.value = Quantity(float(self.value), self.unit).value(unit)
+                        self.value = Quantity(value, self.unit).value(unit)
                 self.unit = unit
         return self
  
